@@ -325,6 +325,9 @@ def collect(ctx):
             ctx.require(len(bs) > 0, "generation run %s produced no behaviour" % label)
             seen = set()
             for b in bs:
+                # the family of the specification and the class computed by the driver must agree
+                ctx.require(j[5] not in ("innerbroadcast", "innershared") or mix_class(b["stream"], b["tree"]) == "innerbroadcast",
+                            "generation run %s printed a stream outside its family: %s" % (label, b["stream"]))
                 k = json.dumps(b, sort_keys=True)
                 if k not in seen:
                     seen.add(k)
